@@ -184,6 +184,13 @@ class Driver:
     def ask_raw(self, line: str) -> str:
         self.p.stdin.write(line + "\n")
         self.p.stdin.flush()
+        # watchdog: a request the model cannot answer in reasonable time must end the run (exit 2), not hang it
+        import select
+        limit = float(os.environ.get("VERIF_DRIVER_TIMEOUT", "900"))
+        ready, _, _ = select.select([self.p.stdout], [], [], limit)
+        if not ready:
+            self.p.kill()
+            raise InfraError(f"model driver did not answer within {limit:.0f} s on request: " + line[:300])
         out = self.p.stdout.readline()
         if out == "":
             raise InfraError("model driver died on request: " + line[:300])
